@@ -158,6 +158,7 @@ class Executor:
         self.funcs_reached = set()
         self.stubs_used = set()
         self.base_facts = list(assumptions or [])
+        self.deadline = None
 
     # ------------------------------------------------------------------ memory objects
     def new_obj(self, st, size, name, const=False, opaque=False):
@@ -547,6 +548,10 @@ class Executor:
         if cond is False:
             return False
         self.prune_calls += 1
+        if self.deadline is not None:
+            import time as _t
+            if _t.time() > self.deadline:
+                raise IRUnsupported("time budget exceeded during symbolic execution")
         s = self.solver
         s.push()
         try:
@@ -687,6 +692,10 @@ class Executor:
                 fr.idx = k
             ins = blk.instrs[fr.idx]
             st.steps += 1
+            if self.deadline is not None and (st.steps & 255) == 0:
+                import time as _t
+                if _t.time() > self.deadline:
+                    raise IRUnsupported("time budget exceeded during symbolic execution")
             if st.steps > self.max_steps:
                 raise PathEnd("UNWIND", "step budget")
             fr.idx += 1
